@@ -131,3 +131,58 @@ def tracer_frames(rng, tier):
             for f, v in vals:
                 if not numpy.array_equal(f.x.data, v, equal_nan=True): fail = 'reverse sweep modified the forward value of node %d (%s)' % (f.ID, f.func.__name__); break
         yield case, fail
+
+
+def factorization_directions(rng, tier):
+    """C11 for the factorizations: forward value and reverse-sweep adjoint of each direction equal the single-direction run,
+    with different base matrices per direction -- one of them special (identity-like / repeated eigenvalue)."""
+    a = native.algopy(); U = a.UTPM
+    def sym(x): return x + numpy.swapaxes(x, 2, 3)
+    def base_spd(p, n): B = numpy.array([native.rnd(rng) for _ in range(n * n)]).reshape(n, n); return B.dot(B.T) + (1.5 + p) * numpy.eye(n)
+    facts = [('qr', lambda A: a.qr(A), 'gen'), ('cholesky', lambda A: (a.cholesky(A),), 'spd'), ('eigh', lambda A: a.eigh(A), 'symrep'), ('svd', lambda A: a.svd(A), 'gen'),
+             ('inv', lambda A: (a.inv(A),), 'gen'), ('det', lambda A: (a.det(A),), 'gen'), ('logdet', lambda A: (a.logdet(A),), 'spd'), ('lu', lambda A: a.lu(A), 'gen'), ('qr_full', lambda A: a.qr_full(A), 'gen')]
+    for name, f, kind in facts:
+        for n in (2, 3):
+            for (D, P) in ((2, 2), (3, 3)) if tier != 'quick' else ((2, 2),):
+                A = numpy.array([native.rnd(rng) for _ in range(D * P * n * n)]).reshape(D, P, n, n)
+                if kind in ('spd', 'symrep'): A = sym(A)
+                for p in range(P):
+                    if kind == 'gen': A[0, p] = A[0, p] + (2.0 + p) * numpy.eye(n)
+                    elif kind == 'spd': A[0, p] = base_spd(p, n)
+                    else:
+                        q0, _ = numpy.linalg.qr(numpy.array([native.rnd(rng) for _ in range(n * n)]).reshape(n, n) + 2 * numpy.eye(n))
+                        lam = numpy.arange(1., n + 1) + p
+                        if p == P - 1: lam[1] = lam[0]                    # last direction: exactly repeated eigenvalue
+                        A[0, p] = q0.dot(numpy.diag(lam)).dot(q0.T)
+                case = {'factorization': name, 'n': n, 'D': D, 'P': P}
+                try: ys = f(U(A.copy()))
+                except Exception as e: yield case, 'raises %s: %s' % (type(e).__name__, str(e)[:80]); continue
+                ys = [y for y in ys if isinstance(y, U)]
+                fail = None
+                for p in range(P):
+                    y1 = [y for y in f(U(A[:, p:p + 1].copy())) if isinstance(y, U)]
+                    for k, (yy, y1k) in enumerate(zip(ys, y1)):
+                        if not numpy.allclose(yy.data[:, p], y1k.data[:, 0], rtol=1e-8, atol=1e-8): fail = 'forward: output %d of direction %d differs from the single-direction factorization' % (k, p); break
+                    if fail: break
+                yield dict(case, mode='forward'), fail
+                # reverse sweep through the traced factorization
+                try:
+                    def trace(Ad):
+                        cg = a.CGraph(); fA = a.Function(U(Ad.copy())); outs = f(fA)
+                        outs = [o for o in outs]
+                        deps = [o for o in outs if isinstance(getattr(o, 'x', None), U)]
+                        cg.trace_off(); cg.independentFunctionList = [fA]; cg.dependentFunctionList = deps
+                        return cg, fA, deps
+                    cg, fA, deps = trace(A)
+                    bars = [T.rand_like(d.x, rng) for d in deps]
+                    cg.pullback([U(b.data.copy()) for b in bars]); xbar = fA.xbar.data.copy()
+                    fail = None
+                    for p in range(P):
+                        cg1, fA1, deps1 = trace(A[:, p:p + 1])
+                        cg1.pullback([U(b.data[:, p:p + 1].copy()) for b in bars])
+                        if not numpy.allclose(xbar[:, p], fA1.xbar.data[:, 0], rtol=1e-7, atol=1e-7): fail = 'reverse sweep: adjoint of direction %d differs from the single-direction sweep (max err %.3g)' % (p, numpy.abs(xbar[:, p] - fA1.xbar.data[:, 0]).max()); break
+                    yield dict(case, mode='reverse'), fail
+                except Exception as e:
+                    msg = str(e)
+                    if "pb_" in msg and 'has no attribute' in msg: continue            # no pullback provided: allowed
+                    yield dict(case, mode='reverse'), 'raises %s: %s' % (type(e).__name__, [l for l in msg.splitlines() if l.strip()][-1][:120] if msg.strip() else '')
